@@ -177,20 +177,177 @@ theorem batches_hold_only_pushed (a0 : Appender) (h0 : a0.batches = []) (xs : Li
   · have : p ∈ (pushAll a0 xs).batches.flatMap (·.fhists) := List.mem_flatMap.mpr ⟨b, hb, hp⟩
     rw [f3] at this; exact (List.mem_filter.mp this).1
 
-/-- `rolledback_never_stored` / "only commit stores": on the op-level machine no operation other than
-    `commit` — appends (accepted or rejected), `rollback`, option changes, appender creation, queries,
-    start-up truncation — changes the samples held by any series. -/
-theorem only_commit_stores (s : State) (hc : s.cfg = true) (tk : List String) (hne : tk ≠ ["commit"])
+/-- `rolledback_never_stored` / "only commit stores": on the op-level machine no operation other than a
+    `commit` (of any of the appender slots) — appends (accepted or rejected), `rollback`, option changes,
+    appender creation, queries, start-up truncation — changes the samples held by any series. -/
+theorem only_commit_stores (s : State) (hc : s.cfg = true) (tk : List String)
+    (hne : tk ≠ ["commit"] ∧ tk ≠ ["@1", "commit"] ∧ tk ≠ ["@2", "commit"])
     (m : String) : ((stepT s tk).1.head.store.get m).all = (s.head.store.get m).all :=
   only_commit_stores_aux s hc tk hne m
 
 theorem rolledback_never_stored (s : State) (hc : s.cfg = true) :
     (stepT s ["rollback"]).1.head = s.head ∧ (stepT s ["rollback"]).1.app = none := by
-  unfold stepT
+  have e : stepT s ["rollback"] = stepT0 s ["rollback"] := by simp [stepT]
+  rw [e]
+  unfold stepT0
   simp only [hc]
   cases h : s.app <;> simp [h]
 
 example : ({ cfg := true } : State).cfg = true := rfl
+
+/-! ### overlapping appenders: admission and commit read the appender's own window snapshot
+
+Up to three appenders are open on one head (`State.app`, `app1`, `app2`; ops `@1 …`, `@2 …`).  The window
+(`minValidTime`, `headMaxt`, `oooTimeWindow`) is copied into the appender when the real head appender is
+created — `Head.Appender()` on an initialised head, the first `Append*` of an `initAppender` — and neither
+`Append*` nor `Commit` looks at the live head times afterwards. -/
+
+/-- `Head.appender()` on an initialised head: live at once, window = the head's window now. -/
+theorem snapshot_at_creation (h : Head) (v2 : Bool) (hi : h.initialized = true) :
+    (h.newAppender v2).live = true ∧ (h.newAppender v2).w = h.window ∧ (h.newAppender v2).batches = [] := by
+  simp [Head.newAppender, hi]
+
+/-- `initAppender`: nothing is captured at `Head.Appender()`; the first append initialises the head times
+    if nobody did so before (`initTime` is a compare-and-swap) and snapshots the head as it is *then*. -/
+theorem snapshot_lazy_at_first_append (h : Head) (v2 : Bool) (t : Int) (hi : h.initialized = false) :
+    (h.newAppender v2).live = false ∧
+    ∀ h' : Head, (materialise h' (h.newAppender v2) t).2.live = true ∧
+      (materialise h' (h.newAppender v2) t).2.w = (materialise h' (h.newAppender v2) t).1.window ∧
+      (h'.initialized = true → (materialise h' (h.newAppender v2) t).1 = h') := by
+  refine ⟨by simp [Head.newAppender, hi], fun h' => ?_⟩
+  simp only [Head.newAppender, hi, materialise]
+  by_cases c : h'.initialized = true <;> simp [c]
+
+/-- a live appender never refreshes its snapshot (and does not touch the head times) -/
+theorem snapshot_fixed_once_live (h : Head) (a : Appender) (t : Int) (hl : a.live = true) :
+    materialise h a t = (h, a) := by
+  simp [materialise, hl]
+
+/-- An op addressed to another slot leaves this slot's appender — snapshot, option, batches — as it is. -/
+theorem other_slot_op_keeps_appender (s : State) (rest : List String) :
+    (stepT s ("@1" :: rest)).1.app = s.app ∧ (stepT s ("@2" :: rest)).1.app = s.app := by
+  constructor
+  · show (if slotOp rest then _ else _ : State × String).1.app = s.app
+    split
+    · exact (stepT0_other_slots s.swap1 rest).1
+    · rfl
+  · show (if slotOp rest then _ else _ : State × String).1.app = s.app
+    split
+    · exact (stepT0_other_slots s.swap2 rest).2
+    · rfl
+
+/-- the ops of a history that are addressed to the other appender slots -/
+def OtherSlotOps (ops : List (List String)) : Prop :=
+  ∀ tk ∈ ops, ∃ rest, tk = "@1" :: rest ∨ tk = "@2" :: rest
+
+theorem interleaving_keeps_appender (s : State) (ops : List (List String)) (ho : OtherSlotOps ops) :
+    (runT s ops).app = s.app := by
+  induction ops generalizing s with
+  | nil => rfl
+  | cons tk rest ih =>
+    have h1 : (stepT s tk).1.app = s.app := by
+      obtain ⟨r, hr | hr⟩ := ho tk List.mem_cons_self
+      · rw [hr]; exact (other_slot_op_keeps_appender s r).1
+      · rw [hr]; exact (other_slot_op_keeps_appender s r).2
+    have h2 := ih (stepT s tk).1 (fun tk' h' => ho tk' (List.mem_cons_of_mem _ h'))
+    simpa [runT, h1] using h2
+
+/-- `Append*` on a live appender: answer, new batches and the (possibly created, still empty) series are a
+    function of the appender (its snapshot), the series store and the sample — the head's live
+    `maxTime` / `minValidTime` are not read and not written. -/
+theorem append_reads_snapshot (s : State) (hc : s.cfg = true) (a : Appender) (ha : s.app = some a)
+    (hl : a.live = true) (k n t v : String) (x : Sample) (hk : k = "f" ∨ k = "h" ∨ k = "fh")
+    (hx : parseSample? k t v = some x) :
+    stepT s [k, n, t, v] =
+      ({ s with head := { s.head with store := (a.append s.head.store n x).2.1 },
+                app := some (a.append s.head.store n x).1 }, (a.append s.head.store n x).2.2) := by
+  have e : stepT s [k, n, t, v] = stepT0 s [k, n, t, v] := by
+    rcases hk with hk | hk | hk <;> subst hk <;> simp [stepT]
+  rw [e]
+  have hcfg : k ≠ "cfg" := by rcases hk with hk | hk | hk <;> subst hk <;> decide
+  have hk' : ¬ (k ≠ "f" ∧ k ≠ "h" ∧ k ≠ "fh") := by
+    rcases hk with hk | hk | hk <;> subst hk <;> decide
+  unfold stepT0
+  split
+  · rename_i w cr cap heq
+    simp at heq
+    exact absurd heq.1 hcfg
+  · simp only [hc, Bool.not_true, Bool.false_eq_true, if_false]
+    split
+    all_goals (try (rename_i heq; simp at heq))
+    · exact absurd heq hk'
+    · simp [hx, ha, materialise, hl]
+
+/-- `Commit` on a live appender: the stored samples are the batches re-checked with **the appender's
+    snapshot `a.w`** against the live series; the head's live times only receive the result
+    (`updateMinMaxTime`). -/
+theorem commit_reads_snapshot (s : State) (hc : s.cfg = true) (a : Appender) (ha : s.app = some a)
+    (hl : a.live = true) :
+    (stepT s ["commit"]).1.head.store =
+        (commitBatches a.w s.head.capMax a.batches { store := s.head.store }).store ∧
+    (stepT s ["commit"]).1.head.maxTime =
+        max s.head.maxTime (commitBatches a.w s.head.capMax a.batches { store := s.head.store }).inOrderMaxt ∧
+    (stepT s ["commit"]).1.app = none := by
+  have e : stepT s ["commit"] = stepT0 s ["commit"] := by simp [stepT]
+  rw [e]
+  unfold stepT0
+  simp [hc, ha, Head.commit, hl]
+
+/-- **Snapshot theorem for overlapping appenders.**  Let appender `a` be open and live in slot 0, and let
+    any history of ops addressed to the other slots follow (appender creation, appends to the same or other
+    series, commits that move the head's max time and the series' newest samples, rollbacks).  Then the
+    commit of slot 0 stores exactly `commitBatches` of `a`'s batches under `a`'s **original** window
+    `a.w` against the series as they are now: whatever the head's live `maxTime` / `minValidTime` have
+    become meanwhile does not enter the decision. -/
+theorem overlapping_commit_uses_snapshot (s : State) (hc : s.cfg = true) (a : Appender) (ha : s.app = some a)
+    (hl : a.live = true) (ops : List (List String)) (ho : OtherSlotOps ops) :
+    (stepT (runT s ops) ["commit"]).1.head.store =
+      (commitBatches a.w (runT s ops).head.capMax a.batches { store := (runT s ops).head.store }).store :=
+  (commit_reads_snapshot (runT s ops) (runT_cfg s hc ops) a
+    (by rw [interleaving_keeps_appender s ops ho]; exact ha) hl).1
+
+/-- …and the decision of `Head.commit` is literally independent of the head times. -/
+theorem commit_ignores_live_head_times (h : Head) (a : Appender) (mt mv : Int) :
+    ({ h with maxTime := mt, minValidTime := mv }.commit a).store = (h.commit a).store := by
+  unfold Head.commit
+  split <;> rfl
+
+example : OtherSlotOps [["@1", "app", "v2"], ["@1", "f", "b", "2000", "3ff0000000000000"], ["@1", "commit"]] := by
+  intro tk h
+  simp at h
+  rcases h with h | h | h <;> exact ⟨_, Or.inl h⟩
+
+/-! #### the snapshot matters: the scenario of an appender overtaken by another one -/
+
+/-- OOO window 600 000, series `a` holds a float at 1 000 000 (= head max time). -/
+def hOv0 : Head :=
+  { oooWin := 600000, chunkRange := 7200000, initialized := true, maxTime := 1000000,
+    store := [("a", { inorder := [⟨1000000, .f, 0x3ff0000000000000⟩] })] }
+/-- appender X is created … -/
+def xOv : Appender := hOv0.newAppender false
+/-- … another appender commits series `b` at 2 000 000 … -/
+def hOv1 : Head :=
+  let y := hOv0.newAppender true
+  let r := y.append hOv0.store "b" ⟨2000000, .f, 0x3ff0000000000000⟩
+  { hOv0 with store := r.2.1 }.commit r.1
+/-- … then X appends `a` at 900 000. -/
+def xOvAppend : Appender × Store × String := xOv.append hOv1.store "a" ⟨900000, .f, 0x3ff0000000000000⟩
+
+/-- the hypotheses of `append_reads_snapshot` / `commit_reads_snapshot` / `overlapping_commit_uses_snapshot`
+    hold in that history: X open and live in slot 0 after the other appender's commit -/
+example : ({ cfg := true, head := hOv1, app := some xOv } : State).cfg = true ∧
+    ({ cfg := true, head := hOv1, app := some xOv } : State).app = some xOv ∧ xOv.live = true := ⟨rfl, rfl, by decide⟩
+
+/-- The head's max time has moved to 2 000 000, X's snapshot still says 1 000 000; the sample is accepted
+    (out of order, inside X's window) and X's commit stores it out of order.  Re-checking with the *live*
+    window instead (which is what the seeded change C02-a does) would drop it silently. -/
+theorem snapshot_vs_live_window_witness :
+    hOv1.maxTime = 2000000 ∧ xOv.w = ⟨-2600000, 1000000, 600000⟩ ∧ hOv1.window = ⟨-1600000, 2000000, 600000⟩ ∧
+    xOvAppend.2.2 = "ok" ∧
+    (({ hOv1 with store := xOvAppend.2.1 }.commit xOvAppend.1).store.get "a").oooAll
+      = [⟨900000, .f, 0x3ff0000000000000⟩] ∧
+    (({ hOv1 with store := xOvAppend.2.1 }.commit { xOvAppend.1 with w := hOv1.window }).store.get "a").oooAll
+      = [] := by decide
 
 /-! ### the full statement across kinds, and why it fails (finding C02-F1) -/
 
